@@ -59,6 +59,14 @@ pub struct World {
     pub cpuid_intercept: bool,
     /// rolling hash of every event trace of the current run (for the determinism proof)
     pub evhash: u64,
+    /// pages of the kernel half of the address space (which a ring-3 process cannot back) whose
+    /// accesses are redirected to a shadow page: (page address, shadow page address)
+    pub redirects: Vec<(u64, u64)>,
+    /// a redirected access is being single-stepped: (register, original value, moved value)
+    pub redirect_pending: Option<(u8, u64, u64)>,
+    /// accesses redirected so far / addresses touched (for the scenario's oracle)
+    pub redirect_log: Vec<(u64, bool)>,
+    scratch_page: u64,
 }
 
 static mut WORLD: *mut World = core::ptr::null_mut();
@@ -91,6 +99,10 @@ pub fn world() -> &'static mut World {
                 landing: None,
                 cpuid_intercept: true,
                 evhash: 0,
+                redirects: Vec::new(),
+                redirect_pending: None,
+                redirect_log: Vec::new(),
+                scratch_page: 0,
             });
             WORLD = Box::into_raw(w);
             install_handlers();
@@ -317,6 +329,99 @@ impl World {
             }
         }
         false
+    }
+
+    unsafe fn rec_upper_fault(&mut self, ctx: &mut Ctx, addr: u64, write: bool) -> bool {
+        match hwwalk::walk(&self.mem, self.cpu.root(), addr) {
+            None => {
+                self.mmu_log.push(MmuFault { va: addr, pa: None, allowed: false, write });
+                // a genuine page fault of the system under test: a scratch page of zeros lets the
+                // call finish and be reported
+                if self.scratch_page == 0 {
+                    let r = libc::mmap(core::ptr::null_mut(), 4096, libc::PROT_READ | libc::PROT_WRITE, libc::MAP_PRIVATE | libc::MAP_ANONYMOUS, -1, 0);
+                    if r == libc::MAP_FAILED {
+                        return false;
+                    }
+                    self.scratch_page = r as u64;
+                }
+                core::ptr::write_bytes(self.scratch_page as *mut u8, 0, 4096);
+                let sp = self.scratch_page;
+                self.redirect(ctx, addr, sp, write)
+            }
+            Some(wk) => {
+                let pa = wk.pa & !0xfff;
+                let ok = self.allowed.contains(&pa);
+                self.mmu_log.push(MmuFault { va: addr, pa: Some(pa), allowed: ok, write });
+                if !ok {
+                    self.bad.push(BadTouch { view: "recursive", pa, write });
+                }
+                let host = self.mem.commit(pa) as u64;
+                self.redirect(ctx, addr, host, write)
+            }
+        }
+    }
+
+    /// An access to a redirected page: move the address register by the distance to the shadow
+    /// page and single-step the instruction.  false = the instruction is not understood.
+    unsafe fn redirect(&mut self, ctx: &mut Ctx, addr: u64, shadow: u64, write: bool) -> bool {
+        if self.redirect_pending.is_some() {
+            return false;
+        }
+        let bytes = core::slice::from_raw_parts(ctx.rip() as *const u8, 15);
+        // rep stos (what memset of a whole table becomes): executed here, on the shadow page
+        let (rep, rest) = if bytes[0] == 0xf3 { (true, &bytes[1..]) } else { (false, bytes) };
+        let (wide, opc) = if rest[0] == 0x48 { (true, rest[1]) } else { (false, rest[0]) };
+        if rep && (opc == 0xaa || opc == 0xab) && ctx.eflags() & 0x400 == 0 && ctx.get(7) == addr {
+            let size: u64 = if opc == 0xaa { 1 } else if wide { 8 } else { 4 };
+            let left_in_page = (0x1000 - (addr & 0xfff)) / size;
+            let n = ctx.get(1).min(left_in_page);
+            let val = ctx.get(0).to_le_bytes();
+            let dst = (shadow + (addr & 0xfff)) as *mut u8;
+            for k in 0..(n * size) as usize {
+                dst.add(k).write_volatile(val[k % size as usize]);
+            }
+            self.redirect_log.push((addr, true));
+            ctx.set(7, ctx.get(7).wrapping_add(n * size));
+            ctx.set(1, ctx.get(1) - n);
+            if ctx.get(1) == 0 {
+                ctx.set_rip(ctx.rip() + if wide { 3 } else { 2 });
+            }
+            return true;
+        }
+        let Some(m) = crate::memop::mem_operand(bytes, ctx, addr) else {
+            let mut b = [0u8; 18];
+            raw_write(b"REDIRECT: cannot decode");
+            for k in 0..12 {
+                raw_write(b" ");
+                raw_write(&hex(bytes[k] as u64, &mut b)[16..]);
+            }
+            raw_write(b"\n");
+            return false;
+        };
+        // the decoded operand must be the access that faulted (the access may start up to 63 bytes
+        // before the faulting byte when it straddles into the page)
+        if addr.wrapping_sub(m.ea) >= 64 {
+            return false;
+        }
+        let delta = shadow.wrapping_sub(addr & !0xfff);
+        let (reg, moved) = match (m.base, m.index) {
+            (Some(b), _) if b != 4 => (b, ctx.get(b).wrapping_add(delta)),
+            (None, Some(x)) if delta % m.scale as u64 == 0 => (x, ctx.get(x).wrapping_add(delta / m.scale as u64)),
+            _ => return false,
+        };
+        // base and index the same register, or the register also an operand that is not simply
+        // overwritten: moving it would change more than the address
+        if m.base.is_some() && m.index == m.base {
+            return false;
+        }
+        if m.reg_gpr == Some(reg) && !m.pure_load {
+            return false;
+        }
+        self.redirect_log.push((addr, write));
+        self.redirect_pending = Some((reg, ctx.get(reg), moved));
+        ctx.set(reg, moved);
+        ctx.set_eflags(ctx.eflags() | 0x100);
+        true
     }
 
     /// Emulate one decoded privileged instruction.  Returns false if it is not handled here.
@@ -596,6 +701,19 @@ pub fn monitor<T>(f: impl FnOnce() -> T) -> T {
     unsafe {
         core::arch::asm!("pushfq", "or qword ptr [rsp], 0x100", "popfq", "nop");
     }
+    // a panic of the system under test unwinds past the exit point: leave single-step mode then
+    struct Leave;
+    impl Drop for Leave {
+        fn drop(&mut self) {
+            if std::thread::panicking() {
+                // (the handler clears TF when it sees the exit point; pushfq/popfq here would be
+                // emulated against the simulated flags)
+                usim_mon_exit_point();
+                world().mon_active = false;
+            }
+        }
+    }
+    let _leave = Leave;
     let r = f();
     usim_mon_exit_point();
     // belt and braces: if the exit point was not seen (budget overrun), TF is already clear
@@ -619,6 +737,17 @@ unsafe extern "C" fn on_signal(sig: libc::c_int, info: *mut libc::siginfo_t, uc:
     let rip = ctx.rip();
     let mut handled = false;
     if sig == libc::SIGTRAP {
+        if let Some((reg, orig, moved)) = w.redirect_pending.take() {
+            // the redirected access has executed: move the address register back unless the
+            // instruction overwrote it
+            if ctx.get(reg) == moved {
+                ctx.set(reg, orig);
+            }
+            if !w.mon_active {
+                ctx.set_eflags(ctx.eflags() & !0x100);
+            }
+            handled = true;
+        }
         if w.mon_active {
             w.mon_step(&mut ctx);
             handled = true;
@@ -641,7 +770,29 @@ unsafe extern "C" fn on_signal(sig: libc::c_int, info: *mut libc::siginfo_t, uc:
         }
     } else if sig == libc::SIGSEGV || sig == libc::SIGBUS {
         let write = ctx.err() & 2 != 0;
-        handled = w.page_fault(addr, write);
+        if let Some(&(_, shadow)) = w.redirects.iter().find(|(p, _)| *p == addr & !0xfff) {
+            match w.redirect(&mut ctx, addr, shadow, write) {
+                true => handled = true,
+                false => {
+                    // not a violation and not a harness bug: the step cannot be simulated
+                    raw_write(b"REDIRECT-UNSUPPORTED instruction\n");
+                    libc::_exit(4);
+                }
+            }
+        } else if w.rec_slot.map_or(false, |r| r >= 256 && hwwalk::idx(addr, 4) == r as u64 && addr >> 47 == 0x1ffff) {
+            // recursive view with a kernel-half recursive index: the software MMU resolves the
+            // address as in the lower half, but the access itself is steered to the harness's
+            // mapping of the frame (no alias can be mapped up there)
+            match w.rec_upper_fault(&mut ctx, addr, write) {
+                true => handled = true,
+                false => {
+                    raw_write(b"REDIRECT-UNSUPPORTED instruction\n");
+                    libc::_exit(4);
+                }
+            }
+        } else {
+            handled = w.page_fault(addr, write);
+        }
     }
     if !handled {
         let what = match sig {
